@@ -662,6 +662,57 @@ fn main() {
         });
     }
 
+    // ---------------------------------------------------------------- a whole tag in the wrong place
+    // One more single deviation: a complete, well-formed tag of the menu below inserted at the start
+    // of a template or right after any of its tags - `continue` / `break` outside a loop, a stray
+    // `else` / `elif` / `endif` / `endfor` / `endblock` / `endset`, `super()` outside a block, an
+    // `extends` that is not first, a second definition of a block. Ok or Err, never a panic.
+    {
+        const TAGS: [&str; 12] = [
+            "BS continue BE", "BS break BE", "BS else BE", "BS elif a BE", "BS endif BE", "BS endfor BE", "BS endblock BE",
+            "BS endset BE", "VS super() VE", "BS extends \"p\" BE", "BS block b BEBS endblock BE", "BS endfilter BE",
+        ];
+        let pairs = &seed_pairs;
+        let fam = Family::new(
+            "seeds-tag-insertion",
+            pairs.len() as u64,
+            &format!(
+                "{} (delimiter set, seed) pairs x every insertion point (start of a template, right after each of its tags) x {} complete tags ({}): add_raw_templates of the seed's templates and render_str of the changed one",
+                pairs.len(),
+                TAGS.len(),
+                TAGS.join(" | ")
+            ),
+        )
+        .timeout(120.0)
+        .describe(|item| {
+            let (di, si) = pairs[item as usize];
+            json!({"family": "seeds-tag-insertion", "delimiters": ds[di].show(), "seed": all_seeds[si].id})
+        });
+        run.family(fam, |item, acc| {
+            let (di, si) = pairs[item as usize];
+            let (d, seed) = (&ds[di], &all_seeds[si]);
+            let mut r = Runner::new(&bases[di], "seeds-tag-insertion");
+            let orig = print_seed(di, seed);
+            let tags: Vec<String> = TAGS.iter().map(|t| t.replace("BS", d.bs).replace("BE", d.be).replace("VS", d.vs).replace("VE", d.ve)).collect();
+            for ti in 0..orig.len() {
+                let src = &orig[ti].1;
+                let mut points = vec![0usize];
+                for end in [d.be, d.ve, d.ce] {
+                    points.extend(src.match_indices(end).map(|(i, e)| i + e.len()));
+                }
+                points.sort();
+                points.dedup();
+                for &at in &points {
+                    for (k, tag) in tags.iter().enumerate() {
+                        let mut printed = orig.clone();
+                        printed[ti].1.insert_str(at, tag);
+                        run_seed(&mut r, d, seed, &printed, ti, &|| json!({"template": ti, "inserted_at_byte": at, "tag": TAGS[k]}), acc);
+                    }
+                }
+            }
+        });
+    }
+
     // two deviations on the short seeds
     let short_limit = 24usize;
     let short: Vec<usize> = (0..all_seeds.len()).filter(|i| all_seeds[*i].n_tokens() <= short_limit && all_seeds[*i].n_tokens() >= 2).collect();
